@@ -287,7 +287,7 @@ func (e *Engine) FindFunc(c *Contract) (*ssa.Function, error) {
 func (e *Engine) findFuncByKey(key string) (*ssa.Function, error) {
 	var found []*ssa.Function
 	for fn := range e.allFuncs {
-		if fn.Parent() != nil || fn.Synthetic != "" && !strings.HasPrefix(fn.Synthetic, "instance") {
+		if fn.Parent() != nil || fn.Synthetic != "" && !strings.HasPrefix(fn.Synthetic, "instance") && fn.Synthetic != "package initializer" {
 			continue
 		}
 		for _, n := range funcNames(fn) {
@@ -661,12 +661,23 @@ func (e *Engine) OwnershipViolations() (checked []string, bad []string) {
 			continue
 		}
 		tname, fname := tf[:k], tf[k+1:]
-		obj, ok := sp.Pkg.Scope().Lookup(tname).(*types.TypeName)
-		if !ok {
-			bad = append(bad, "owns "+tf+": type not found (contract target missing)")
-			continue
+		var comp string
+		if tname == "global" {
+			// a package-level variable: "global.<name>"
+			gl, ok := sp.Members[fname].(*ssa.Global)
+			if !ok {
+				bad = append(bad, "owns "+tf+": package variable not found (contract target missing)")
+				continue
+			}
+			comp = "global:" + gl.String()
+		} else {
+			obj, ok := sp.Pkg.Scope().Lookup(tname).(*types.TypeName)
+			if !ok {
+				bad = append(bad, "owns "+tf+": type not found (contract target missing)")
+				continue
+			}
+			comp = fieldComp(obj.Type(), fname)
 		}
-		comp := fieldComp(obj.Type(), fname)
 		allowed := map[string]bool{}
 		for _, a := range d.Owns {
 			allowed[a] = true
